@@ -1,18 +1,78 @@
 (* C09 — composite: running children == configured; none survive Run(); no deadlock.
    Statements only; every proof is `exact <lemma>`.
 
-   What is NOT proved here (see notes/composite.md): C09_exact and C09_live as universally
-   quantified theorems.  Delivered: none-survive for all schedules, the refutation of deadlock
-   freedom for the unrepaired code (finding stop-between-setconfig-and-boot), and the no-stuck-state
-   witness facts. *)
+   The model is of the repaired code by default: fix_c09 P = true (Run takes reloadMu around its
+   stopAllRunnables, /repo 82de565) and fix_c11 P = true (/repo 5b52fc2).  Legacy variants are named
+   explicitly (fix_c09 P = false).  [greach P s] = s is reached by a schedule whose callback values
+   range over the pool; [good_pool] = distinct pool members have distinct String(). *)
 From Coq Require Import List NArith Bool.
-From GS Require Import Errs LTS Composite CompositeMon CompositeBase CompositeC10 CompositeC09.
+From GS Require Import Errs LTS Composite CompositeMon CompositeBase CompositeC10 CompositeC11
+     CompositeLocks CompositeLive CompositeC09 CompositeProgress CompositeExact.
 Import ListNotations.
 
-(* C09_none_survive: in every reachable state in which Run() has executed its deferred calls
-   (it has returned, or is about to hand its result to the caller) Run's context — from which the
-   context of every child ever started is derived — is cancelled, and Stop() callers are released;
-   after Stop(), cancellation, a child failure or a failed reload, under every interleaving *)
+(* C09_live (delivered as no-stuck-state, DESIGN.md section 9): for the repaired code and children
+   that behave like the bundled runnables (Run returns once signalled or cancelled; Stop either
+   non-blocking or blocking until a Run has started and finished), in EVERY reachable state of every
+   guarded schedule - any pool, any reload history, any number of concurrent Reload()/Stop()
+   callers, any interleaving - in which Run() has been called and some Stop()/Reload() caller has not
+   returned (or Run() is past its select), a label other than a new API call / cancellation /
+   observation is enabled; unless a blocking child Stop() was overtaken by a new Run of the same
+   child ([overtaken]: the lifecycle cycle-reset shape of C07, kept in the child contract). *)
+Theorem C09_live_partial : forall P s,
+  fix_c09 P = true -> good_pool P -> good_children P ->
+  greach P s -> ~ overtaken P s -> runt s <> TIdle -> pending s ->
+  exists l s', env_label l = false /\ step P s l = Some s'.
+Proof. exact no_stuck_state. Qed.
+
+(* the excluded shape is necessary in the model (and is C07's cycle-reset defect seen from the
+   composite): a reachable state of the repaired model, children like the bundled runnables, in
+   which a Reload() caller is pending, the shape [overtaken] holds and no label other than new API
+   calls / cancellation / observations is enabled.  (A later Stop() or cancellation releases it.) *)
+Theorem C09_overtaken_is_stuck : exists P s,
+  fix_c09 P = true /\ good_pool P /\ good_children P /\ greach P s /\
+  overtaken P s /\ runt s <> TIdle /\ pending s /\
+  (forall l s', step P s l = Some s' -> env_label l = true).
+Proof.
+  exists ov_params, ov_st. split; [reflexivity|].
+  split; [repeat constructor; cbn; intuition discriminate|].
+  split; [intros c [<-|[<-|[]]]; reflexivity|].
+  split; [exact ov_reach|]. split; [exact ov_overtaken|].
+  split; [discriminate|]. split; [|exact ov_stuck].
+  right. right. exists 1. eexists. split; [vm_compute; reflexivity|discriminate].
+Qed.
+
+(* the mutual exclusion behind it: at most one Reload() is inside its critical section, and
+   never while Run() tears down (repaired code) *)
+Theorem C09_reload_mutex : forall P s, reach P s ->
+  count_r inside (reloaders s) + b2n (fix_c09 P && tear_hold (runt s))
+  = b2n (negb (mu_free (reload_mu s))).
+Proof. intros P s H. exact (proj1 (proj1 (proj2 (base_reach_locks P s H)))). Qed.
+
+(* C09_exact, in the form that is true of the code: while the composite is Running and no Reload()
+   is inside its critical section, the children started by the current boot generation are exactly
+   the runnables of the current configuration (as sets of pool members) ... *)
+Theorem C09_exact : forall P s,
+  fix_c09 P = true -> fix_c11 P = true -> good_pool P -> greach P s ->
+  fsm s = FRunning -> reload_mu s = None ->
+  forall c, In c (ids (entries_of s)) <-> In c (map k_child (cur_kids s)).
+Proof. exact exact_running. Qed.
+
+(* ... and right after every boot exactly one goroutine per entry, in entry order *)
+Theorem C09_exact_at_boot : forall P s o s',
+  K_gen s -> step P s (LBootLaunch o) = Some s' ->
+  map k_child (cur_kids s') = ids (entries_of s) /\ entries_of s' = entries_of s.
+Proof. exact boot_launch_exact. Qed.
+
+(* every Stop worker of stopAllRunnables addresses a child that has a goroutine (no Stop() on a
+   child that nobody will ever run: the F8 shape is gone), repaired code *)
+Theorem C09_stop_targets_launched : forall P s,
+  fix_c09 P = true -> good_pool P -> greach P s ->
+  forall w, In w (workers s) -> has_kid (w_child w) s = true.
+Proof. intros P s Hf Hp Hr. exact (proj2 (g_kids P s (Gall_greach P s Hf Hp Hr))). Qed.
+
+(* C09_none_survive: whenever Run() has executed its deferred calls (after Stop(), cancellation,
+   a child failure or a failed reload, under every interleaving) its context - the parent of every
+   child context ever created - is cancelled and Stop() callers are released *)
 Theorem C09_none_survive : forall P s, reach P s ->
   returned (runt s) = true -> rctx s = true /\ lc_done s = true.
 Proof. exact none_survive. Qed.
@@ -29,12 +89,15 @@ Theorem C09_launched_child_runs : forall P s i k,
   exists s', step P s (LKRun i (k_child k)) = Some s'.
 Proof. exact launched_child_can_run. Qed.
 
-(* C09_live_refuted (unrepaired code, children that behave like the bundled runnables: Stop blocks
-   until Run has started and finished, Run exits when signalled or cancelled): a reachable state in
-   which a Stop() caller and a Reload() caller are parked, Run() is inside stopAllRunnables, and NO
-   label other than new API calls / cancellation / observations is enabled.  The schedule is the
-   witness: Stop() between setConfig(new) and boot(new). *)
-Theorem C09_live_refuted : exists P s,
+(* the model branches that the code cannot take are unreachable *)
+Theorem C09_oops_unreachable : forall P s, reach P s -> oops s = false.
+Proof. intros P s H. exact (proj1 (proj2 (proj2 (base_reach_locks P s H)))). Qed.
+
+(* LEGACY variant (fix_c09 P = false, the code before /repo 82de565): deadlock freedom is refuted.
+   A reachable state in which a Stop() caller and a Reload() caller are parked, Run() is inside
+   stopAllRunnables, and no label other than new API calls / cancellation / observations is
+   enabled; witness schedule: Stop() between setConfig(new) and boot(new). *)
+Theorem C09_live_refuted_legacy : exists P s,
   fix_c09 P = false /\
   (forall c, In c (pool P) -> c_stop c = UntilRunDone /\ c_exit c = OnSignal) /\
   reach P s /\
@@ -54,29 +117,64 @@ Theorem C09_accepted_traces_are_model_traces : forall P fuel tr s,
   exists ls, run (step P) init ls = Some s /\ obs_trace obs ls = tr.
 Proof. exact accept_sound. Qed.
 
+(* the incremental acceptor the driver actually runs (frontier cap / time budget between events) *)
+Theorem C09_incremental_acceptor_sound : forall P fuel tr S e,
+  sound_set P tr S -> sound_set P (tr ++ [e]) (fst (accept1 P fuel S e)).
+Proof. exact accept1_sound. Qed.
+
+Print Assumptions C09_live_partial.
+Print Assumptions C09_overtaken_is_stuck.
+Print Assumptions C09_reload_mutex.
+Print Assumptions C09_exact.
+Print Assumptions C09_exact_at_boot.
+Print Assumptions C09_stop_targets_launched.
 Print Assumptions C09_none_survive.
 Print Assumptions C09_cancelled_child_exits.
 Print Assumptions C09_launched_child_runs.
-Print Assumptions C09_live_refuted.
+Print Assumptions C09_oops_unreachable.
+Print Assumptions C09_live_refuted_legacy.
 Print Assumptions C09_accepted_traces_are_model_traces.
+Print Assumptions C09_incremental_acceptor_sound.
 
-(* non-vacuity: a schedule in which Run() returns after Stop() during a growth reload (Stop arrives
-   while the reloader is already inside boot, holding runnablesMu): every child has exited *)
+(* non-vacuity: the former F8 witness in the repaired model - Stop() arrives between setConfig(new)
+   and boot(new); Run() waits for reloadMu, the reload boots, Run() then stops everything and
+   returns; every hypothesis of C09_live_partial holds along the way *)
+Definition cur_params : params :=
+  mkParams [mkSpec 0 UntilRunDone OnSignal RWC; mkSpec 1 UntilRunDone OnSignal RWC] true true false.
+
 Definition ex_sched : list label :=
   [LRunCall; LRunBegin; LBootLock ORun; LCb ORun (CbSome [(0, 0)]%N); LBootLaunch ORun; LToRunning;
    LKRun 0 0%N;
    LReloadCall 0; LRlLock 0; LCb (ORel 0) (CbSome [(0, 1); (1, 1)]%N);
    LStopBegin (ORel 0); LWCall 0 0%N; LKExit 0 0%N None; LWUnblock 0; LWRet 0 0%N;
-   LStopJoin (ORel 0); LRlSetCfg 0; LBootLock (ORel 0);
+   LStopJoin (ORel 0); LRlSetCfg 0;
    LStopApi 0; LSSignal 0; LSelStop; LTransIf;
-   LBootLaunch (ORel 0); LRlFinish 0; LRlRet 0;
-   LStopBegin ORun; LWCall 1 1%N; LWCall 2 0%N; LKRun 1 0%N; LKRun 2 1%N;
+   LBootLock (ORel 0); LBootLaunch (ORel 0); LRlFinish 0; LRlRet 0;
+   LTearLock; LStopBegin ORun; LWCall 1 1%N; LWCall 2 0%N; LKRun 1 0%N; LKRun 2 1%N;
    LKExit 1 0%N None; LKExit 2 1%N (Some Canceled);
    LWUnblock 1; LWUnblock 2; LWRet 1 1%N; LWRet 2 0%N; LStopJoin ORun; LToStopped; LRunExit;
    LRunRet internal_err; LSRet 0].
 
 Example C09_nonvacuous : exists s,
-  run (step f8_params) init ex_sched = Some s /\ returned (runt s) = true /\ rctx s = true /\
+  run (step cur_params) init ex_sched = Some s /\ Forall (good_label cur_params) ex_sched /\
+  good_pool cur_params /\ good_children cur_params /\
+  returned (runt s) = true /\ rctx s = true /\
   forallb (fun k => match k_pc k with KDone => true | _ => false end) (kids s) = true /\
   length (kids s) = 3 /\ stoppers s = [SDone] /\ fsm s = FError.
-Proof. eexists. split; [vm_compute; reflexivity|]. vm_compute. repeat split. Qed.
+Proof.
+  eexists. split; [vm_compute; reflexivity|]. split.
+  - repeat constructor.
+  - split; [repeat constructor; cbn; intuition discriminate|].
+    split; [intros c [<-|[<-|[]]]; reflexivity|]. vm_compute. repeat split.
+Qed.
+
+(* the state after the first 21 labels is the former deadlock point: Run() is waiting for reloadMu
+   and the reloader can take runnablesMu *)
+Example C09_nonvacuous_window : exists s,
+  run (step cur_params) init (firstn 21 ex_sched) = Some s /\
+  runt s = TTearLock /\ option_map r_pc (nth_error (reloaders s) 0) = Some RBootLock /\
+  pending s /\ exists s', step cur_params s (LBootLock (ORel 0)) = Some s'.
+Proof.
+  eexists. split; [vm_compute; reflexivity|]. split; [reflexivity|]. split; [reflexivity|].
+  split; [left; reflexivity|]. eexists. vm_compute. reflexivity.
+Qed.
